@@ -201,7 +201,7 @@ func (d *duplexHTTPCall) CloseRead() error {
 		if stored := d.getError(); stored != nil {
 			return stored
 		}
-		return wrapIfRSTError(err)
+		return wrapIfRSTError(wrapIfContextDone(d.ctx, wrapIfContextError(err)))
 	}
 	return wrapIfRSTError(d.response.Body.Close())
 }
